@@ -6,6 +6,10 @@
   PAN3  a documented panic happens before any mutation of the buffer
   MOD1  no modulus by / element index into a zero capacity reaches a public entry
   ARITH1 no Add/Mul on caller-supplied indices/lengths outside the reviewed sites
+  SUB1  no usize subtraction can underflow (debug builds: an undocumented panic; release: a
+        wrapped index/length): REQUIRES(b <= a) per site, discharged or propagated to callers;
+        obligations over opaque values (other calls' results, Drain/slice-pointer fields) are
+        counted as undecided, never reported
 Not decided: implicit bounds/range checks (counted, assumed infeasible under INV); termination.
 """
 from .. import common, effects, guards, mir, panics, shared
@@ -20,7 +24,8 @@ EXPLANATION = (
     "do not count, and compares the result with the documented table (range/range_mut/drain -> the four checks of "
     "translate_range_bounds; swap -> its two asserts; Index/IndexMut -> expect; everything else -> none); checks "
     "that each documented panic precedes any buffer write; and that no Rem/Div by, or element index into, a "
-    "zero capacity is reachable from any public entry (MOD1). Implicit slice/array bounds checks are counted, "
+    "zero capacity is reachable from any public entry (MOD1); that no usize subtraction whose operands are transparent "
+    "(parameters, constants, the header fields, slice-parameter lengths, positions) can underflow (SUB1). Implicit slice/array bounds checks are counted, "
     "not judged (they are infeasible under INV, which INV1 checks); termination of loops is not decided."
 )
 
@@ -52,6 +57,7 @@ def run(ctx, progs):
     ctx.rule("PAN4", "every normal return of an asserting function passes each of its documented assertions")
     ctx.rule("MOD1", "REQUIRES(divisor > 0 / N > 0) discharged before reaching a public entry")
     ctx.rule("ARITH1", "Add/Mul on caller-supplied values only at reviewed sites")
+    ctx.rule("SUB1", "no usize subtraction underflows (a debug-build panic / release wrap): REQUIRES(b <= a) discharged")
     ctx.assumptions.append("INV (size <= N, N > 0 => start < N): preservation checked by INV1 under C04")
     ctx.assumptions.append("core's RangeBounds impls for RangeTo/RangeFull/RangeFrom behave as documented")
     ctx.rule("DBGASSERT1", "thorough tier, debug build: every debug assertion is proved unreachable from the public entries, except the "
@@ -63,6 +69,9 @@ def run(ctx, progs):
         pan(ctx, prog, cfg)
         eng = shared.run_mod1(prog)
         shared.report_requires(ctx, eng, "MOD1", cfg)
+        from .. import subrule
+
+        subrule.report(ctx, prog, cfg)
         ctx.floor("MOD1", "generator/propagation sites", eng.sites, 40, cfg)
         arith1(ctx, prog, cfg)
         implicit_counts(ctx, prog, cfg)
